@@ -1081,7 +1081,7 @@ static void c19_plan(Rng &rng, Plan &p) {
     for (;;) { std::vector<int> live; for (int c = 0; c < nconn; c++) if (idx[(size_t) c] < per[(size_t) c].size()) live.push_back(c); if (live.empty()) break; int c = live[rng.below(live.size())]; p.ops.push_back(per[(size_t) c][idx[(size_t) c]++]); }
     if (rng.chance(2, 3)) {   // one thread per connection under the baton scheduler, pre-emption every ~mean basic blocks
         p.scenario = "threads"; p.threads = nconn; p.sched_seed = (long) (rng.next() & 0x7fffffff);
-        static const long M[] = {3, 10, 40, 200, 2000}; p.sched_mean = M[rng.below(5)];
+        static const long M[] = {15, 60, 300, 2000, 20000}; p.sched_mean = M[rng.below(5)];   // a hand-over costs ~20 us of real time
     } else p.scenario = "calls";
 }
 
